@@ -425,7 +425,7 @@ def plan(tier, seed):
     extra = [c for c in chosen if c[7] == 0 and c[4] != 0 and c[6] == 0]
     if tier != 'thorough':
         extra = rng.sample(extra, min(len(extra), 300))
-    for k in range(1, 4 if tier == 'thorough' else 2):
+    for k in range(1, 12 if tier == 'thorough' else 2):
         chosen += [c + (seed * 100 + k,) for c in extra]
     rng.shuffle(chosen)
     n = 16
